@@ -163,6 +163,29 @@ class ContractMixin:
                         st.heap_override = prev
                     terms.append(cur == old)
             return k(mk_bool(z3.And(*terms)), st)
+        if name == "unchanged_except":
+            # unchanged_except("Cls.field", obj, ...): only the listed objects' entries may differ from old()
+            key = e.args[0].value
+
+            def with_objs(objs, s):
+                terms = []
+                x = z3.Const("x!ue", RefS)
+                for hk, sort in self.heap_keys_for(key):
+                    cur = s.harr(hk, sort)
+                    prev = s.heap_override
+                    s.heap_override = s.old
+                    try:
+                        old = s.harr(hk, sort)
+                    finally:
+                        s.heap_override = prev
+                    guards = [x != (self.singleton_ref(o).t if isinstance(o, Singleton) else o.t) for o in objs]
+                    terms.append(z3.ForAll([x], z3.Implies(z3.And(*guards) if guards else z3.BoolVal(True),
+                                                          z3.Select(cur, x) == z3.Select(old, x))))
+                return k(mk_bool(z3.And(*terms)), s)
+            return self.ev_list(e.args[1:], st, with_objs)
+        if name == "fresh_obj":
+            # allocated during this call: born after everything that existed at old()
+            return self.ev(e.args[0], st, lambda v, s: k(mk_bool(birth(v.t) > s.old.bound), s))
         if name == "typeof":
             return self.ev(e.args[0], st, lambda v, s: k(self.type_of(v), s))
         if name == "seq_eq":
@@ -256,6 +279,8 @@ class ContractMixin:
     def touch(self, st, obj, guard=False):
         if st.in_spec or self.no_inv_assume or not isinstance(obj, Val) or obj.ty[1] is None:
             return
+        if obj.t.get_id() in st.constructing:
+            return
         cn = obj.ty[1]
         try:
             ci = self.class_info(cn)
@@ -275,6 +300,14 @@ class ContractMixin:
                     continue
                 f = self.inv_formula(st, n, text, obj, snap=base)
                 st.assume(z3.Implies(obj.t != NULL, f) if guard else f)
+
+    def assume_kernel_facts(self, st, resume=False):
+        for (name, expr, why, on_resume) in self.reg.kernel_facts:
+            e = on_resume if resume else expr
+            if e is None:
+                continue
+            self.assumptions_used.add("kernel fact %s: %s (%s)" % (name, e, why))
+            st.assume(self.eval_clause(e, st))
 
     def assume_invariants_eagerly(self, st):
         """at a consistent point (entry / after interference): invariants of parameters and own objects"""
@@ -389,6 +422,13 @@ class ContractMixin:
                 w = self.witness(cn)
                 wv = Val(REF(cn), w)
                 hyp_guard = [w != NULL, subclass(cls_of(w), cls_const(cn))] + all_hyps
+                if self.init_self is not None:
+                    # the object under construction had no invariants before: witness = any *other* object
+                    hyp_guard.append(w != self.init_self.t)
+                    if self.init_self.t.get_id() not in st.constructing and self.static_subclass_safe(self.init_self.ty[1], cn):
+                        f0 = self.inv_formula(st, cn, text, Val(REF(self.init_self.ty[1]), self.init_self.t))
+                        self.emit(st, "invariant", "inv[%s.%s]@%s(self)" % (cn, iname, where), text, f0,
+                                  props=props or None, extra_hyp=all_hyps)
                 if base is not None:
                     before = self.inv_formula(st, cn, text, wv, snap=base)
                 else:
@@ -400,6 +440,8 @@ class ContractMixin:
                     self.emit(st, "invariant", "inv[%s.%s]@%s" % (cn, iname, where), text, now,
                               props=props or None, extra_hyp=hyp_guard + [before])
                 for (o, oc) in st.new_objs:
+                    if o.get_id() in st.constructing:
+                        continue      # its __init__ has not run yet
                     if self.static_subclass_safe(oc, cn):
                         f = self.inv_formula(st, cn, text, Val(REF(oc), o))
                         self.emit(st, "invariant", "inv[%s.%s]@%s(new %s)" % (cn, iname, where, oc), text, f,
@@ -527,6 +569,8 @@ class ContractMixin:
                     s.assume(n >= (1 if kind in ("signal", "close") else 0))
                 s.susp = s.susp + n
                 s.last_susp = s.snap()
+                if kind == "normal":
+                    self.assume_kernel_facts(s)
             else:
                 mods = self.parse_modifies(c, st, fr)
                 if mods and not c.pure and self.ABSTRACT_TRUTH in s.heap:
@@ -717,6 +761,19 @@ class ContractMixin:
             v = self.fresh_param(st, n, ty)
             self.entry_params[n] = v
         fr.locals = dict((n, self.entry_params[n]) for n in pnames)
+        self.init_self = None
+        if info.node.name == "__init__" and pnames and isinstance(self.entry_params[pnames[0]], Val):
+            self.init_self = self.entry_params[pnames[0]]
+            st.constructing = st.constructing | {self.init_self.t.get_id()}
+            # the allocation site has just set the ghost defaults
+            for n in self.mro_names(self.init_self.ty[1]):
+                m = self.reg.models.get(n)
+                if m is None:
+                    continue
+                for f, dv in m.ghost_defaults.items():
+                    key, ty, _g = self.field_decl(n, f)
+                    cur = self.read_field(st, self.init_self.t, key, ty)
+                    st.assume(cur.t == coerce(PyConst(dv), ty).t)
         if closure_vars:
             fr.closure = dict((n, self.entry_params[n]) for n in closure_vars)
         st.old = st.snap()
@@ -741,6 +798,8 @@ class ContractMixin:
             s.inv_base = s.old
             s.last_susp = s.old
             self.assume_invariants_eagerly(s)
+            if not c.no_invariants:
+                self.assume_kernel_facts(s)
             outs.extend(self.exec_block(info.node.body, s))
         self.path_count += len(outs)
         for o, s in outs:
@@ -869,6 +928,8 @@ class ContractMixin:
             st.old = saved
 
     def check_common_exit(self, c, info, st, tag):
+        if self.init_self is not None:
+            st.constructing = st.constructing - {self.init_self.t.get_id()}
         self.check_guarantee(c, st, "exit(%s)" % tag)
         for i, cl in enumerate(c.on_exit):
             self.emit(st, "on_exit", "on_exit[%d](%s)" % (i, tag), cl, self.eval_clause(cl, st))
@@ -953,13 +1014,15 @@ class ContractMixin:
             if hk in (self.CORO_STATE_KEY, self.ABSTRACT_TRUTH):
                 continue
             objs = allowed.get(hk)
+            x = z3.Const("x!fr", RefS)
             if objs is None:
-                self.emit(st, "frame", "frame[%s](%s)" % (hk, tag), "modifies does not list " + hk, arr == old)
+                # objects created by this call are outside the frame
+                goal = z3.ForAll([x], z3.Implies(birth(x) <= 0, z3.Select(arr, x) == z3.Select(old, x)))
+                self.emit(st, "frame", "frame[%s](%s)" % (hk, tag), "modifies does not list " + hk, goal)
             elif None in objs:
                 continue
             else:
-                x = z3.Const("x!fr", RefS)
-                goal = z3.ForAll([x], z3.Implies(z3.And(*[x != o for o in objs]), z3.Select(arr, x) == z3.Select(old, x)))
+                goal = z3.ForAll([x], z3.Implies(z3.And(birth(x) <= 0, *[x != o for o in objs]), z3.Select(arr, x) == z3.Select(old, x)))
                 self.emit(st, "frame", "frame[%s](%s)" % (hk, tag), "only declared objects change in " + hk, goal)
 
     def parse_modifies_old(self, c, st, fr):
